@@ -1,4 +1,4 @@
-import PySMT.Proofs.C04Width
+import PySMT.Proofs.C04World
 /-!
 # C04 — hash-consing: one object per structure, faithful accessors, faithful copies
 
@@ -101,44 +101,61 @@ theorem array_get_correct {s s' : Mgr} (h : Reachable s) {addr : Nid → Nat}
     arrayValueGet addr s' i idx = .ok ((lookupKey (arrayAssignments addr d assign) idx).getD d) :=
   PySMT.Manager.array_get_correct h.inv hinj hd hrun idx hc
 
-/-- every node up to `i` has a content that the public constructors produce (`Normal`: all 66
-    node types with the side conditions the constructors establish — `Not` not over `Not`,
-    `And/Or/Plus/Times/StrConcat` with ≥ 2 children, width payloads equal to the `bv_width` of
-    the child, `ToReal` over a non-constant Int term, `Div` not by a non-zero Real constant,
-    `Pow` with constant exponent and non-constant base, quantifiers over ≥ 1 symbol, function
-    applications of the declared arity, array values sorted by address without default-valued
-    assignments) -/
-def AllNormal (src : Mgr) (addr : Nid → Nat) (same : Bool) (i : Nid) : Prop :=
-  ∀ c k, (c, k) ∈ src.formulae → k ≤ i → Normal src addr same c
+/-! ### `normalize` — several environments, persistent memos, arbitrary interleavings
 
-/-- `IdentityDagWalker` / `normalize` in the *same* manager creates no node and, if it returns
-    (it fails only when `TypeManager.normalize` or `Symbol` reject a sort/name clash), returns
-    the node it was given. -/
-theorem rebuild_id {s : Mgr} (h : Reachable s) (addr : Nid → Nat) {i : Nid} (i0 : 0 < i)
-    (i1 : i < s.nextId) (hn : AllNormal s addr true i) {r : Except Err Nid} {s' : Mgr}
-    (hrun : (normalize s addr i).run s = (r, s')) :
-    s'.nextId = s.nextId ∧ ∀ j, r = .ok j → j = i :=
-  rebuild_same h.inv addr i0 i1 (fun c k hc hk => recSpec_of_Normal h.inv addr true k (hn c k hc hk)) hrun
+`WReach w`: `w` is a family of managers (one per environment) with the memo of each
+manager's `FormulaContextualizer`, reached by *any* interleaving of programs run in any
+manager and `normalize` calls from any manager `k` into any manager `t` (also `k = t`).  The
+memo of `t` persists over the whole history and is keyed by (source manager, node).
+`AllNormal src addr same i`: every node of `src` up to `i` has a content the public
+constructors produce (`Normal`: all 66 node types with the side conditions the constructors
+establish — `Not` not over `Not`, `And/Or/Plus/Times/StrConcat` with ≥ 2 children, width
+payloads equal to the `bv_width` of the child, `ToReal` over a non-constant Int term, `Div`
+not by a non-zero Real constant, `Pow` with constant exponent and non-constant base,
+quantifiers over ≥ 1 symbol, function applications of the declared arity; array values —
+sorted by address, no default-valued assignment — only for `same = true`). -/
 
-/-- `normalize` into a second manager: if it returns `j`, then `j` is a node of the second
-    manager (`0 < j < nextId`, and so is everything below it: `dag_owned`), its tree equals
-    the tree of the source node, and every node created on the way is a copy of a source node.
-    Ids of the two managers are different name spaces: nothing is shared by construction.
-    PARTIAL: formulas containing an array value are excluded (`same = false` admits no
-    `ARRAY_VALUE`): the copy lists the assignments in the *target's* address order, so the
-    trees are equal only up to a permutation of the assignments (finding F60; K and S compare
-    that case modulo the order). -/
-theorem normalize_copy_partial {src tgt : Mgr} (hs : Reachable src) (ht : Reachable tgt) (addr : Nid → Nat)
-    {i : Nid} (i0 : 0 < i) (i1 : i < src.nextId) (hn : AllNormal src addr false i) {r : Except Err Nid}
-    {tgt' : Mgr} (hrun : (normalize src addr i).run tgt = (r, tgt')) :
-    Reachable tgt' ∧ (∀ j, r = .ok j → 0 < j ∧ j < tgt'.nextId ∧ tgt'.struct j = src.struct i) ∧
-    (∀ b, tgt.nextId ≤ b → b < tgt'.nextId → ∃ a, 0 < a ∧ a < src.nextId ∧ tgt'.struct b = src.struct a) := by
-  have hsp := normalize_spec hs.inv addr false i0 i1
-    (fun c k hc hk => recSpec_of_Normal hs.inv addr false k (hn c k hc hk)) ht.inv (by simp) hrun
-  refine ⟨?_, fun j hj => ⟨(hsp.2.2.2 j hj).pos, (hsp.2.2.2 j hj).lt, (hsp.2.2.2 j hj).eq⟩, hsp.2.2.1⟩
-  have := Reachable.step (normalize src addr i) ht
-  rw [hrun] at this
-  exact this
+/-- `IdentityDagWalker` / `normalize` of a manager's *own* formula, at any point of any
+    interleaving (after any number of foreign formulas went through the same normalizer):
+    no node is created and, if it returns (it fails only when `TypeManager.normalize` or
+    `Symbol` reject a sort/name clash), it returns the node it was given. -/
+theorem rebuild_id {w : World} (h : WReach w) (t : Nat) (addr : Nid → Nat) {i : Nid} (i0 : 0 < i)
+    (i1 : i < (w.mgrs t).nextId) (hn : AllNormal (w.mgrs t) addr true i) :
+    ((w.normalize t t addr i).2.mgrs t).nextId = (w.mgrs t).nextId ∧
+    ∀ j, (w.normalize t t addr i).1 = .ok j → j = i := by
+  have hn' : AllNormal (w.mgrs t) addr (decide (t = t)) i := by simpa using hn
+  have hw := h.winv
+  obtain ⟨hw', he, hnew, hcp⟩ := winv_normalize hw t t addr i0 i1 hn'
+  exact ⟨same_manager_no_new (hw.inv t) (hw'.inv t) he hnew,
+    fun j hj => (same_manager_identity (hw.inv t) (hw'.inv t) he hnew (hcp j hj)).2⟩
+
+/-- `normalize` from manager `k` into manager `t` at any point of any interleaving of sources
+    and targets: the world stays reachable; if the call returns `j`, then `j` is a node of
+    `t` (`0 < j < nextId`, and so is everything below it: `dag_owned`) whose tree equals the
+    tree of the source node; every node created on the way is a copy of a node of `k`; no
+    other manager changes.  Ids of different managers are different name spaces: nothing is
+    shared by construction.
+    PARTIAL: for `k ≠ t` formulas containing an array value are excluded (`same = false`
+    admits no `ARRAY_VALUE`): the copy lists the assignments in the *target's* address order,
+    so the trees are equal only up to a permutation of the assignments (finding F60; K and S
+    compare that case modulo the order). -/
+theorem normalize_copy_partial {w : World} (h : WReach w) (t k : Nat) (addr : Nid → Nat) {i : Nid}
+    (i0 : 0 < i) (i1 : i < (w.mgrs k).nextId) (hn : AllNormal (w.mgrs k) addr (decide (k = t)) i) :
+    WReach (w.normalize t k addr i).2 ∧
+    (∀ j, (w.normalize t k addr i).1 = .ok j →
+      0 < j ∧ j < ((w.normalize t k addr i).2.mgrs t).nextId ∧
+      ((w.normalize t k addr i).2.mgrs t).struct j = (w.mgrs k).struct i) ∧
+    (∀ b, (w.mgrs t).nextId ≤ b → b < ((w.normalize t k addr i).2.mgrs t).nextId →
+      ∃ a, 0 < a ∧ a < (w.mgrs k).nextId ∧ ((w.normalize t k addr i).2.mgrs t).struct b = (w.mgrs k).struct a) ∧
+    (∀ t', t' ≠ t → (w.normalize t k addr i).2.mgrs t' = w.mgrs t') := by
+  obtain ⟨_, _, hnew, hcp⟩ := winv_normalize h.winv t k addr i0 i1 hn
+  refine ⟨WReach.norm t k addr i i0 i1 hn h, fun j hj => ⟨(hcp j hj).pos, (hcp j hj).lt, (hcp j hj).eq⟩, hnew, ?_⟩
+  intro t' ht'
+  simp [World.normalize, upd, ht']
+
+/-- every manager of a reachable world is a reachable manager: all theorems above apply -/
+theorem world_managers_reachable {w : World} (h : WReach w) (k : Nat) : Reachable (w.mgrs k) :=
+  h.reachable k
 
 /-- every node below a node of a manager is a node of that manager -/
 theorem dag_owned {s : Mgr} (h : Reachable s) {c : Content} {i : Nid} (hc : (c, i) ∈ s.formulae) :
@@ -206,6 +223,20 @@ example (addr : Nid → Nat) (same : Bool) :
   · exact .base (.symbol "x" (.bv 8))
   · exact .base (.bool false)
   · exact .base (.bool true)
+
+/-- Two sources whose nodes carry the *same* id (3: `x` in manager 0, `y` in manager 1) go
+    through the persistent memo of manager 2 one after the other: the copies are different
+    nodes (a memo keyed by the node id alone would return `x` for `y`), and both calls repeated
+    hit the memo. -/
+example :
+    let w0 := (World.init.runProg 0 (mkSymbol "x" .bool)).2
+    let w1 := (w0.runProg 1 (mkSymbol "y" .int)).2
+    let r2 := w1.normalize 2 0 id 3
+    let r3 := r2.2.normalize 2 1 id 3
+    let r4 := r3.2.normalize 2 0 id 3
+    let r5 := r4.2.normalize 2 2 id 4
+    (r2.1, r3.1, r4.1, r5.1) = (.ok 3, .ok 4, .ok 3, .ok 4) ∧
+    (r5.2.mgrs 2).content? 4 = some (symC "y" .int) := by decide +kernel
 
 /-- sorted assignments exist: two distinct keys in either address order -/
 example : SortedBy (fun i => 10 - i) (arrayAssignments (fun i => 10 - i) 9 [(3, 7), (4, 8), (5, 9)]) ∧
